@@ -1,6 +1,6 @@
 (* The statements behind props/C04.v and props/C06.v, derived from the step-level facts of
    OwnInv_proofs.v. *)
-From Verif Require Import Common Ownership Ownership_proofs Teardown Teardown_proofs OwnSpec OwnInv_proofs.
+From Verif Require Import Gen_DoKill Common Ownership Ownership_proofs Teardown Teardown_proofs OwnSpec OwnInv_proofs.
 Open Scope N_scope.
 
 Lemma option_eq_dec_N (a b : option N) : {a = b} + {a <> b}.
@@ -140,14 +140,14 @@ Proof.
 Qed.
 
 (* the listing after the second half of a creation *)
-Lemma finish_envs e c s s' u ad :
-  finish e c s = (s', u) -> assocN e (s_snaps s) = Some ad ->
+Lemma finish0_envs e c s s' u ad :
+  finish0 e c s = (s', u) -> assocN e (s_snaps s) = Some ad ->
   s_snaps s' = remove_snap e (s_snaps s) /\
   (lmoves e (s_envs s) (s_envs s') \/
    exists x, e_id x = e /\ e_dets x = c_dets c /\ lmoves e (s_envs s ++ [x]) (s_envs s') /\
              forall d, In d (c_dets c) -> ~ In d ad).
 Proof.
-  unfold finish. intros H Ea. rewrite Ea in H.
+  unfold finish0. intros H Ea. rewrite Ea in H.
   set (s0 := mkSt (s_envs s) (s_roster s) (remove_snap e (s_snaps s))) in *.
   destruct (N.leb 1 (c_fail c) && N.leb (c_fail c) 3).
   { injection H as <- <-. split; [reflexivity|left; constructor]. }
@@ -192,12 +192,12 @@ Proof.
   intros [I S D] W Sr E.
   pose proof (step_spec s o s' u I W E) as [I' _].
   constructor; [exact I'| |].
-  - destruct o as [e missing|e c|e c|e ev fail|e force allow keep tfail| |ids|t|fids|];
+  - destruct o as [e missing|e c|e c|e ev fail|e force allow keep tfail| |ids|t|fids|rids|];
       cbn [step serial_op] in *; try discriminate.
     + destruct (N.eqb (c_fail c) 1).
       { unfold snap in E. injection E as <- <-. exact S. }
       unfold snap in E. destruct (cleanup (s_roster s)) as [r' k].
-      cbv iota beta in E. set (s1 := mkSt (s_envs s) r' _) in E. destruct (finish e c s1) as [s2 o2] eqn:Ef. injection E as <- <-.
+      cbv iota beta in E. set (s1 := mkSt (s_envs s) r' _) in E. destruct (finish0 e c s1) as [s2 o2] eqn:Ef. injection E as <- <-.
       assert (Ea : assocN e (s_snaps s1) = Some (active_dets (s_envs s))).
       { subst s1. cbn [s_snaps assocN]. rewrite N.eqb_refl. reflexivity. }
       destruct (finish_envs e c s1 s2 o2 _ Ef Ea) as [Hs _]. rewrite Hs. subst s1. cbn [s_snaps].
@@ -209,13 +209,14 @@ Proof.
     + injection E as <- <-. exact S.
     + injection E as <- <-. exact S.
     + injection E as <- <-. exact S.
-  - destruct o as [e missing|e c|e c|e ev fail|e force allow keep tfail| |ids|t|fids|];
+    + injection E as <- <-. exact S.
+  - destruct o as [e missing|e c|e c|e ev fail|e force allow keep tfail| |ids|t|fids|rids|];
       cbn [step serial_op wf_op] in *; try discriminate.
     + apply andb_true_iff in W. destruct W as [_ Wd]. apply nodupb_N in Wd.
       destruct (N.eqb (c_fail c) 1).
       { unfold snap in E. injection E as <- <-. exact D. }
       unfold snap in E. destruct (cleanup (s_roster s)) as [r' k].
-      cbv iota beta in E. set (s1 := mkSt (s_envs s) r' _) in E. destruct (finish e c s1) as [s2 o2] eqn:Ef. injection E as <- <-.
+      cbv iota beta in E. set (s1 := mkSt (s_envs s) r' _) in E. destruct (finish0 e c s1) as [s2 o2] eqn:Ef. injection E as <- <-.
       assert (Ea : assocN e (s_snaps s1) = Some (active_dets (s_envs s))).
       { subst s1. cbn [s_snaps assocN]. rewrite N.eqb_refl. reflexivity. }
       destruct (finish_envs e c s1 s2 o2 _ Ef Ea) as [_ [Hl|[x [X1 [X2 [Hl Hfree]]]]]].
@@ -226,6 +227,7 @@ Proof.
     + apply destroy_good in E. destruct E as [_ [B _]]. eapply lmoves_dets; eauto.
     + destruct (cleanup (s_roster s)). injection E as <- <-. exact D.
     + destruct (kill_tasks ids (s_roster s)). injection E as <- <-. exact D.
+    + injection E as <- <-. exact D.
     + injection E as <- <-. exact D.
     + injection E as <- <-. exact D.
     + injection E as <- <-. exact D.
@@ -268,7 +270,7 @@ Proof.
   { cbn [step] in E. destruct (N.eqb (c_fail c) 1).
     { unfold snap in E. injection E as <- <-. auto. }
     unfold snap in E. destruct (cleanup (s_roster s)) as [r' k].
-    cbv iota beta in E. unfold finish in E. cbn [s_snaps assocN] in E. rewrite N.eqb_refl in E.
+    cbv iota beta in E. unfold finish0 in E. cbn [s_snaps assocN] in E. rewrite N.eqb_refl in E.
     destruct (N.leb 1 (c_fail c) && N.leb (c_fail c) 3).
     { injection E as <- <-. auto. }
     replace (existsb (fun d0 => memN d0 (active_dets (s_envs s))) (c_dets c)) with true in E.
@@ -288,7 +290,7 @@ Proof.
 Qed.
 
 (* the race: both creations take their snapshot before either is listed *)
-Definition race_spec : cspec := mkSpec [0] 0 [mkRole RPlain true 0 false].
+Definition race_spec : cspec := mkSpec [0] 0 [mkRole RPlain true 0 false] [].
 Definition race_ops : list op := [OSnap 0 false; OCreate 1 race_spec; OFinish 0 race_spec].
 
 Lemma detector_race : valid_hist st0 race_ops = true /\
@@ -305,7 +307,7 @@ Proof.
 Qed.
 
 (* ================================================================== C06 *)
-Definition own3 (t : task) := (t_id t, t_owner t, t_active t).
+Definition own3 (t : task) := (t_id t, t_owner t, t_active t, t_kill t).
 
 Lemma command_same e tg rf dst r : map own3 (command e tg rf dst r) = map own3 r.
 Proof.
@@ -317,15 +319,15 @@ Lemma active_in_same r r' id : map own3 r = map own3 r' -> active_in r id = acti
 Proof.
   unfold active_in, find_task. revert r'. induction r as [|a r IH]; intros [|b r'] H; cbn [map] in H; try discriminate.
   - reflexivity.
-  - unfold own3 at 1 3 in H. injection H as E1 E2 E3 H2. cbn [find]. rewrite E1.
+  - unfold own3 at 1 3 in H. injection H as E1 E2 E3 E4 H2. cbn [find]. rewrite E1.
     destruct (tid_eqb (t_id b) id); [exact E3|apply IH, H2].
 Qed.
 
 Lemma same_In r r' t : map own3 r = map own3 r' -> In t r ->
-  exists t', In t' r' /\ t_id t' = t_id t /\ t_owner t' = t_owner t /\ t_active t' = t_active t.
+  exists t', In t' r' /\ t_id t' = t_id t /\ t_owner t' = t_owner t /\ (t_active t' = t_active t /\ t_kill t' = t_kill t).
 Proof.
   intros H Hin. apply (in_map own3) in Hin. rewrite H in Hin. apply in_map_iff in Hin.
-  destruct Hin as [t' [E Ht']]. unfold own3 in E. injection E as E1 E2 E3. exists t'. auto.
+  destruct Hin as [t' [E Ht']]. unfold own3 in E. injection E as E1 E2 E3 E4. exists t'. auto.
 Qed.
 
 Lemma release_active e ids r id : active_in (fst (release e ids r)) id = active_in r id.
@@ -337,13 +339,13 @@ Proof.
 Qed.
 
 Lemma release_fwd e ids r t : In t r ->
-  exists t', In t' (fst (release e ids r)) /\ t_id t' = t_id t /\ t_active t' = t_active t.
+  exists t', In t' (fst (release e ids r)) /\ t_id t' = t_id t /\ (t_active t' = t_active t /\ t_kill t' = t_kill t).
 Proof.
   induction r as [|a r IH]; cbn [In release]; [tauto|].
   destruct (release e ids r) as [r'' n]. cbn [fst] in IH.
   intros [->|Hin].
   - destruct (mem_tid (t_id t) ids); [destruct (t_owner t) as [o|]; [destruct (N.eqb o e || negb (t_idok t))|]|]; cbn [fst];
-      eexists; (split; [left; reflexivity|split; reflexivity]).
+      eexists; (split; [left; reflexivity|split; [reflexivity|split; reflexivity]]).
   - destruct (IH Hin) as [t' [H1 H2]].
     destruct (mem_tid (t_id a) ids); [destruct (t_owner a) as [o|]; [destruct (N.eqb o e || negb (t_idok a))|]|]; cbn [fst];
       exists t'; (split; [right; exact H1|exact H2]).
@@ -425,7 +427,7 @@ Lemma teardown_releases force e s x :
   s_snaps (td_st (teardown force e s)) = s_snaps s /\
   (forall t, In t (s_roster (td_st (teardown force e s))) -> owner_is e t = false) /\
   (forall t, In t (s_roster s) -> exists t', In t' (s_roster (td_st (teardown force e s))) /\
-                                             t_id t' = t_id t /\ t_active t' = t_active t) /\
+                                             t_id t' = t_id t /\ (t_active t' = t_active t /\ t_kill t' = t_kill t)) /\
   eown e (s_roster (td_st (teardown force e s))).
 Proof.
   intros I Ef Hok. destruct (teardown_ok_shape force e s Hok) as [x' [Ef' [Hst _]]].
@@ -450,9 +452,9 @@ Proof.
       { unfold torelease. apply filter_In. split; [exact Hb|]. rewrite Eh. reflexivity. }
       pose proof (release_unowns e torelease (s_roster s) t' H1 (proj2 (mem_tid_In _ _) Ht)) as X.
       apply owner_is_true in Eo. congruence.
-  - intros t Hin. destruct (release_fwd e torelease (s_roster s) t Hin) as [t1 [A1 [A2 A3]]].
-    destruct (release_fwd e hooktids r1 t1 A1) as [t2 [B1 [B2 B3]]].
-    exists t2. split; [exact B1|]. split; congruence.
+  - intros t Hin. destruct (release_fwd e torelease (s_roster s) t Hin) as [t1 [A1 [A2 [A3 A4]]]].
+    destruct (release_fwd e hooktids r1 t1 A1) as [t2 [B1 [B2 [B3 B4]]]].
+    exists t2. split; [exact B1|]. split; [congruence|]. split; congruence.
   - apply eown_release. apply eown_release. apply eown_inv, I.
 Qed.
 
@@ -533,7 +535,7 @@ Lemma dtc_nothing force keep x s s' u :
   dtc force keep x s = (s', u) -> o_rc u = 0 ->
   s_envs s' = remove_env (e_id x) (s_envs s) /\ s_snaps s' = s_snaps s /\
   (forall t, In t (s_roster s') -> owner_is (e_id x) t = false) /\ o_pend u = 0 /\
-  (keep = false -> forall t, In t (s_roster s) -> t_owner t = Some (e_id x) ->
+  (keep = false -> forall t, In t (s_roster s) -> t_owner t = Some (e_id x) -> t_kill t <> 2 ->
                    In (t_id t) (o_kills u)).
 Proof.
   intros I Hx. unfold dtc. set (e := e_id x) in *.
@@ -562,23 +564,33 @@ Proof.
   destruct keep.
   { intros H _. injection H as <- <-. cbn [o_pend]. repeat split; auto. discriminate. }
   destruct (match bound_tids x with [] => cleanup (s_roster (td_st t)) | _ :: _ => _ end) as [r' k] eqn:Ek.
-  intros H _. injection H as <- <-. unfold with_roster. cbn [s_envs s_snaps s_roster o_pend o_kills].
+  intros H Hrc. injection H as <- <-. unfold with_roster. cbn [s_envs s_snaps s_roster o_pend o_kills o_rc] in *.
   repeat split; auto.
-  - intros t' Hin. apply R3. destruct (bound_tids x).
-    + apply cleanup_sub. rewrite Ek. exact Hin.
-    + eapply kill_sub. rewrite Ek. exact Hin.
-  - intros _ t0 Hin Ho.
+  - intros t' Hin. destruct (bound_tids x).
+    + apply R3. apply cleanup_sub. rewrite Ek. exact Hin.
+    + assert (Hs : In t' (fst (kill_tasks (t0 :: l) (s_roster (td_st t))))) by (rewrite Ek; exact Hin).
+      apply kill_from in Hs. destruct Hs as [t2 [H2 [_ [Eo _]]]]. pose proof (R3 t2 H2) as X.
+      unfold owner_is in *. rewrite <- Eo. exact X.
+  - intros _ t0 Hin Ho Hk2.
     pose proof (find_env_id _ _ _ Ef) as Ex1. apply find_env_In in Ef. destruct Ef as [Hx1 _].
     assert (Hb : In (t_id t0) (bound_tids x)).
     { rewrite (bound_tids_shape x x1) by (auto; congruence). eapply inv_bound; eauto. congruence. }
-    destruct (R4 t0 Hin) as [t' [T1 [T2 T3]]].
+    destruct (R4 t0 Hin) as [t' [T1 [T2 [T3 T4]]]].
     assert (Hl : is_locked t' = false).
     { apply is_locked_false. destruct (R5 t' T1) as [H|H]; [|left; exact H|].
       - rewrite T2. apply bound_tids_fst in Hb. exact Hb.
       - pose proof (R3 t' T1) as X. apply owner_is_true in H. congruence. }
     destruct (bound_tids x) as [|i ids] eqn:Eb; [contradiction|].
+    assert (Hm : mem_tid (t_id t') (i :: ids) = true) by (apply mem_tid_In; rewrite T2; exact Hb).
+    assert (Herr : kill_tasks_err (i :: ids) (s_roster (td_st t)) = false).
+    { destruct (kill_tasks_err (i :: ids) (s_roster (td_st t))); [discriminate|reflexivity]. }
+    assert (Hnr : kill_refused t' = false).
+    { unfold kill_tasks_err in Herr. rewrite <- not_true_iff_false in Herr.
+      destruct (kill_refused t') eqn:Er; [|reflexivity]. exfalso. apply Herr. apply existsb_exists.
+      exists t'. split; [exact T1|]. unfold kill_selected. rewrite Hm, Hl, Er.
+      assert (N.eqb (t_kill t') 2 = false) by (apply N.eqb_neq; congruence). rewrite H. reflexivity. }
     rewrite <- T2. replace k with (snd (kill_tasks (i :: ids) (s_roster (td_st t)))) by (rewrite Ek; reflexivity).
-    apply kill_complete; auto. apply mem_tid_In. rewrite T2. exact Hb.
+    apply kill_complete; auto. congruence.
 Qed.
 
 Lemma transition_same x dst fail r r' tg ok :
@@ -679,7 +691,7 @@ Lemma destroy_nothing_behind s e force allow keep tfail s' u x :
   reachable s -> find_env e (s_envs s) = Some x ->
   step s (ODestroy e force allow keep tfail) = (s', u) -> o_rc u = 0 ->
   nothing_left e s' /\ s_envs s' = remove_env e (s_envs s) /\ o_pend u = 0 /\
-  (keep = false -> forall t, In t (s_roster s) -> t_owner t = Some e -> In (t_id t) (o_kills u)).
+  (keep = false -> forall t, In t (s_roster s) -> t_owner t = Some e -> t_kill t <> 2 -> In (t_id t) (o_kills u)).
 Proof.
   intros R Ef E Hrc. cbn [step] in E. pose proof (reachable_inv s R) as I.
   pose proof (find_env_id _ _ _ Ef) as Ex.
@@ -700,8 +712,8 @@ Proof.
   - intros y Hy. rewrite D1 in Hy. unfold remove_env in Hy. apply filter_In in Hy. destruct Hy as [_ Hy].
     apply negb_true_iff in Hy. apply N.eqb_neq, Hy.
   - congruence.
-  - intros Hkf t Hin Ho. apply Hk.
-    destruct (same_In (s_roster s) (s_roster s1) t (eq_sym Hsame) Hin) as [t1 [T1 [T2 [T3 T4]]]].
+  - intros Hkf t Hin Ho Hk2. apply Hk.
+    destruct (same_In (s_roster s) (s_roster s1) t (eq_sym Hsame) Hin) as [t1 [T1 [T2 [T3 [T4 T5]]]]].
     rewrite <- T2. apply (D5 (Hkeep Hkf) t1 T1); congruence.
 Qed.
 
@@ -801,7 +813,8 @@ Lemma create_tail_nothing x sm cmds l s' u :
   inv sm -> find_env (e_id x) (s_envs sm) = Some x -> e_state x <> ES_DONE ->
   create_tail x sm cmds l = (s', u) ->
   nothing_left (e_id x) s' /\ (o_rc u = 1 /\ o_pend u = 0) /\ o_launch u = l /\
-  (forall t, In t (s_roster sm) -> t_owner t = Some (e_id x) -> In (t_id t) (o_kills u)).
+  (forall t, In t (s_roster sm) -> t_owner t = Some (e_id x) ->
+             In (t_id t) (o_kills u) \/ exists t', In t' (s_roster s') /\ t_id t' = t_id t /\ t_owner t' = None).
 Proof.
   intros I Ef Hd. unfold create_tail. set (e := e_id x) in *.
   pose proof (teardown_succeeds true e sm x I Ef Hd (or_introl eq_refl)) as Hok.
@@ -811,31 +824,36 @@ Proof.
   intro H; injection H as <- <-. cbn [o_rc o_launch o_kills o_pend].
   split; [|split; [split; [reflexivity|apply teardown_left, Hok]|split; [reflexivity|]]].
   - unfold with_roster. rewrite R1. apply nothing_left_removed.
-    intros t' Hin. apply R3. eapply kill_sub. rewrite Ek. exact Hin.
+    intros t' Hin.
+    assert (Hs : In t' (fst (kill_tasks (bound_tids x) (s_roster (td_st t))))) by (rewrite Ek; exact Hin).
+    apply kill_from in Hs. destruct Hs as [t2 [H2 [_ [Eo _]]]]. pose proof (R3 t2 H2) as X.
+    unfold owner_is in *. rewrite <- Eo. exact X.
   - intros t0 Hin Ho.
     assert (Hb : In (t_id t0) (bound_tids x)).
     { apply find_env_In in Ef. destruct Ef as [Hx _]. eapply inv_bound; eauto. }
     destruct (R4 t0 Hin) as [t' [T1 [T2 T3]]].
-    assert (Hl : is_locked t' = false).
-    { apply is_locked_false. destruct (R5 t' T1) as [H|H]; [|left; exact H|].
+    assert (Hn : t_owner t' = None).
+    { destruct (R5 t' T1) as [H|H]; [|exact H|].
       - rewrite T2. apply bound_tids_fst in Hb. exact Hb.
       - pose proof (R3 t' T1) as X. apply owner_is_true in H. congruence. }
-    rewrite <- T2. replace k with (snd (kill_tasks (bound_tids x) (s_roster (td_st t)))) by (rewrite Ek; reflexivity).
-    apply kill_complete; auto. apply mem_tid_In. rewrite T2. exact Hb.
+    destruct (kill_or_stay (bound_tids x) (s_roster (td_st t)) t' T1) as [K|[t'' [K1 [K2 K3]]]].
+    + left. rewrite Ek in K. cbn [snd] in K. congruence.
+    + right. exists t''. rewrite Ek in K1. cbn [fst] in K1. unfold with_roster. cbn [s_roster].
+      split; [exact K1|]. split; congruence.
 Qed.
 
-Lemma finish_nothing e c s s' u ad :
+Lemma finish0_nothing e c s s' u ad :
   inv s -> assocN e (s_snaps s) = Some ad -> c_fail c <> 6 ->
-  finish e c s = (s', u) -> o_rc u = 1 ->
-  (nothing_left e s' /\ launched_killed e c u) /\ o_pend u = 0.
+  finish0 e c s = (s', u) -> o_rc u = 1 ->
+  (nothing_left e s' /\ launched_handled s' u) /\ o_pend u = 0.
 Proof.
-  intros I Ea H6. unfold finish. rewrite Ea. pose proof (assocN_In _ _ _ Ea) as Hp.
+  intros I Ea H6. unfold finish0. rewrite Ea. pose proof (assocN_In _ _ _ Ea) as Hp.
   assert (Rfree : forall t, In t (s_roster s) -> fst (t_id t) <> e).
   { intros t Ht. apply (inv_snap_r s I (e, ad) t Hp Ht). }
   assert (Efree : forall y, In y (s_envs s) -> e_id y <> e).
   { intros y Hy. apply (inv_snap_e s I (e, ad) y Hp Hy). }
   set (s0 := mkSt (s_envs s) (s_roster s) (remove_snap e (s_snaps s))).
-  assert (N0 : (nothing_left e s0 /\ launched_killed e c (out_rc 1)) /\ o_pend (out_rc 1) = 0).
+  assert (N0 : (nothing_left e s0 /\ launched_handled s0 (out_rc 1)) /\ o_pend (out_rc 1) = 0).
   { split; [|reflexivity]. split; [|intros id []]. repeat split; cbn [s0 s_envs s_roster]; auto.
     - apply find_env_none_intro, Efree.
     - intros t Ht. destruct (owner_is e t) eqn:Eo; [|reflexivity]. apply owner_is_true in Eo.
@@ -856,7 +874,7 @@ Proof.
     - split; [|exact P0]. split; [exact A|]. intros id Hl. rewrite B in Hl. contradiction. }
   destruct (N.eqb (c_fail c) 6) eqn:E6; [apply N.eqb_eq in E6; contradiction|].
   set (x1 := set_bound x0).
-  set (new := map (launch_task e) (task_iroles x1)).
+  set (new := map (launch_task e (c_refuse c)) (task_iroles x1)).
   assert (Hids : map t_id new = bound_tids x1).
   { unfold new. rewrite launch_ids. reflexivity. }
   assert (Hnd : NoDup (map t_id new)) by (rewrite Hids; apply bound_tids_nodup).
@@ -869,13 +887,13 @@ Proof.
   assert (Hrun : forall id, In id (map (fun ir0 => tid_of e (fst ir0)) (task_iroles x1)) ->
                  exists t, In t new /\ t_id t = id /\ t_owner t = Some e).
   { intros id Hl. apply in_map_iff in Hl. destruct Hl as [ir [<- Hir]].
-    exists (launch_task e ir). split; [apply in_map, Hir|]. split; reflexivity. }
+    exists (launch_task e (c_refuse c) ir). split; [apply in_map, Hir|]. split; reflexivity. }
   assert (Tail : forall xe rm cmds, e_id xe = e -> e_roles xe = c_roles c -> e_bound xe = true -> e_state xe = ES_ERROR ->
                  inv (mkSt (s_envs s0 ++ [xe]) rm (s_snaps s0)) ->
                  map own3 rm = map own3 (s_roster s ++ new) ->
                  create_tail xe (mkSt (s_envs s0 ++ [xe]) rm (s_snaps s0)) cmds
                              (map (fun ir => tid_of e (fst ir)) (task_iroles x1)) = (s', u) ->
-                 (nothing_left e s' /\ launched_killed e c u) /\ o_pend u = 0).
+                 (nothing_left e s' /\ launched_handled s' u) /\ o_pend u = 0).
   { intros xe rm cmds X1 X2 X3 X4 Im Hsame H.
     destruct (create_tail_nothing xe _ cmds (map (fun ir => tid_of e (fst ir)) (task_iroles x1)) s' u Im) as [A [[_ P0] [B C]]]; auto.
     - cbn [s_envs s0]. rewrite X1. apply find_env_app_new; auto.
@@ -907,7 +925,7 @@ Qed.
 Lemma create_nothing_behind s e c s' u :
   reachable s -> wf_op s (OCreate e c) = true -> c_fail c <> 6 ->
   step s (OCreate e c) = (s', u) -> o_rc u = 1 ->
-  (nothing_left e s' /\ launched_killed e c u) /\ o_pend u = 0.
+  (nothing_left e s' /\ launched_handled s' u) /\ o_pend u = 0.
 Proof.
   intros R W H6 E Hrc. pose proof (reachable_inv s R) as I.
   cbn [wf_op] in W. apply andb_true_iff in W. destruct W as [W _]. apply negb_true_iff in W.
@@ -918,22 +936,24 @@ Proof.
     - intros t Ht. destruct (owner_is e t) eqn:Eo; [|reflexivity]. apply owner_is_true in Eo.
       exfalso. apply (U2 t Ht). eapply inv_owner; eauto. }
   destruct (snap e false s) as [s1 o1] eqn:Es.
-  destruct (finish e c s1) as [s2 o2] eqn:Ef. injection E as <- <-.
+  destruct (finish0 e c s1) as [s2 o2] eqn:Ef. injection E as <- <-.
   destruct (snap_spec e s s1 o1 I W Es) as [I1 [Hc [Hk [Hr He]]]].
   assert (Ea : assocN e (s_snaps s1) = Some (active_dets (s_envs s))).
   { unfold snap in Es. destruct (cleanup (s_roster s)). injection Es as <- _. cbn [s_snaps assocN].
     rewrite N.eqb_refl. reflexivity. }
   cbn [out_seq o_rc] in Hrc.
   destruct (finish_nothing e c s1 s2 o2 _ I1 Ea H6 Ef Hrc) as [[A B] P0]. split; [|exact P0]. split; [exact A|].
-  intros id Hl. cbn [out_seq o_launch o_kills] in *. apply in_or_app. right.
-  apply B; auto. apply in_app_or in Hl. destruct Hl as [Hl|Hl]; [|exact Hl].
-  unfold snap in Es. destruct (cleanup (s_roster s)). injection Es as _ <-. contradiction.
+  intros id Hl. cbn [out_seq o_launch o_kills] in *.
+  assert (Hl2 : In id (o_launch o2)).
+  { apply in_app_or in Hl. destruct Hl as [Hl|Hl]; [|exact Hl].
+    unfold snap in Es. destruct (cleanup (s_roster s)). injection Es as _ <-. contradiction. }
+  destruct (B id Hl2) as [X|X]; [left; apply in_or_app; right; exact X|right; exact X].
 Qed.
 
 Lemma finish_nothing_behind s e c s' u :
   reachable s -> assocN e (s_snaps s) <> None -> c_fail c <> 6 ->
   step s (OFinish e c) = (s', u) -> o_rc u = 1 ->
-  (nothing_left e s' /\ launched_killed e c u) /\ o_pend u = 0.
+  (nothing_left e s' /\ launched_handled s' u) /\ o_pend u = 0.
 Proof.
   intros R Ha H6 E Hrc. pose proof (reachable_inv s R) as I.
   destruct (assocN e (s_snaps s)) as [ad|] eqn:Ea; [|contradiction].
@@ -942,18 +962,18 @@ Qed.
 
 (* ---- partial deployment failure (c_fail = 6): the retried deployment *)
 Definition pd_spec : cspec :=
-  mkSpec [0] 6 [mkRole RPlain true 0 false; mkRole RPlain false 0 false].
+  mkSpec [0] 6 [mkRole RPlain true 0 false; mkRole RPlain false 0 false] [].
 
 (* the source facts (gen/Gen_AcqRoster.v): the tasks of every deployment attempt reach the roster *)
 Lemma roster_attempts_all : roster_attempts = [0; 1; 2].
 Proof. vm_compute. reflexivity. Qed.
 
-Lemma finish_nothing6 e c s s' u ad :
+Lemma finish0_nothing6 e c s s' u ad :
   inv s -> assocN e (s_snaps s) = Some ad -> c_fail c = 6 ->
-  finish e c s = (s', u) -> o_rc u = 1 ->
+  finish0 e c s = (s', u) -> o_rc u = 1 ->
   (nothing_left e s' /\ launched_handled s' u) /\ o_pend u = 0.
 Proof.
-  intros I Ea H6. unfold finish. rewrite Ea. pose proof (assocN_In _ _ _ Ea) as Hp.
+  intros I Ea H6. unfold finish0. rewrite Ea. pose proof (assocN_In _ _ _ Ea) as Hp.
   assert (Rfree : forall t, In t (s_roster s) -> fst (t_id t) <> e).
   { intros t Ht. apply (inv_snap_r s I (e, ad) t Hp Ht). }
   assert (Efree : forall y, In y (s_envs s) -> e_id y <> e).
@@ -1013,22 +1033,18 @@ Proof.
   destruct Hin as [t [Ht Eid]]. exists t. split; [apply Keep, Ht|]. split; [exact Eid|apply Hlast, Ht].
 Qed.
 
-Lemma killed_handled e c s' u : launched_killed e c u -> launched_handled s' u.
-Proof. intros H id Hl. left. apply H, Hl. Qed.
-
 Lemma create_nothing_full s e c s' u :
   reachable s -> wf_op s (OCreate e c) = true ->
   step s (OCreate e c) = (s', u) -> o_rc u = 1 ->
   (nothing_left e s' /\ launched_handled s' u) /\ o_pend u = 0.
 Proof.
   intros R W E Hrc. destruct (N.eq_dec (c_fail c) 6) as [H6|H6].
-  2:{ destruct (create_nothing_behind s e c s' u R W H6 E Hrc) as [[A B] P0].
-      split; [|exact P0]. split; [exact A|eapply killed_handled; eauto]. }
+  2:{ apply (create_nothing_behind s e c s' u R W H6 E Hrc). }
   pose proof (reachable_inv s R) as I.
   cbn [wf_op] in W. apply andb_true_iff in W. destruct W as [W _]. apply negb_true_iff in W.
   cbn [step] in E. rewrite H6 in E. replace (N.eqb 6 1) with false in E by reflexivity.
   destruct (snap e false s) as [s1 o1] eqn:Es.
-  destruct (finish e c s1) as [s2 o2] eqn:Ef. injection E as <- <-.
+  destruct (finish0 e c s1) as [s2 o2] eqn:Ef. injection E as <- <-.
   destruct (snap_spec e s s1 o1 I W Es) as [I1 _].
   assert (Ea : assocN e (s_snaps s1) = Some (active_dets (s_envs s))).
   { unfold snap in Es. destruct (cleanup (s_roster s)). injection Es as <- _. cbn [s_snaps assocN].
@@ -1062,10 +1078,36 @@ Proof. vm_compute. repeat split; reflexivity. Qed.
 
 (* "tasks that never became owned stay unowned and fall to the next cleanup" *)
 Lemma unowned_falls_to_cleanup s t :
-  In t (s_roster s) -> is_locked t = false -> In (t_id t) (o_kills (snd (step s OCleanup))).
+  In t (s_roster s) -> is_locked t = false -> kill_refused t = false ->
+  In (t_id t) (o_kills (snd (step s OCleanup))).
 Proof.
-  intros Hin Hl. cbn [step]. destruct (cleanup (s_roster s)) as [r' k] eqn:Ec. cbn [snd o_kills].
+  intros Hin Hl Hr. cbn [step]. destruct (cleanup (s_roster s)) as [r' k] eqn:Ec. cbn [snd o_kills].
   replace k with (snd (cleanup (s_roster s))) by (rewrite Ec; reflexivity). apply cleanup_complete; auto.
+Qed.
+
+(* a KILL call that fails for one task: what the source does (gen/Gen_DoKill.v) and what the model of
+   doKillTasks / KillTasks / Cleanup therefore guarantees: the task that was not killed stays in the roster
+   with its owner, and every other selected task still gets its KILL *)
+Lemma kill_failure_is_local :
+  dokill_puts_back = true /\ dokill_carries_on = true /\
+  (forall ids r t, In t r ->
+     In (t_id t) (snd (kill_tasks ids r)) \/
+     exists t', In t' (fst (kill_tasks ids r)) /\ t_id t' = t_id t /\ t_owner t' = t_owner t) /\
+  (forall ids r t, In t r -> mem_tid (t_id t) ids = true -> is_locked t = false ->
+     kill_refused t = false -> t_kill t <> 2 -> In (t_id t) (snd (kill_tasks ids r))) /\
+  (forall r t, In t r -> In (t_id t) (snd (cleanup r)) \/ In t (fst (cleanup r))) /\
+  (forall r t, In t r -> is_locked t = false -> kill_refused t = false -> In (t_id t) (snd (cleanup r))).
+Proof.
+  split; [vm_compute; reflexivity|]. split; [vm_compute; reflexivity|].
+  split; [intros; apply kill_or_stay; assumption|].
+  split; [intros; apply kill_complete; assumption|].
+  split; [|intros; apply cleanup_complete; assumption].
+  intros r t. induction r as [|a r IH]; cbn [In cleanup]; [tauto|].
+  destruct (cleanup r) as [r'' k]. cbn [fst snd] in IH.
+  intros [->|Hin].
+  - destruct (negb (is_locked t)); [destruct (kill_refused t)|]; cbn [fst snd In]; auto.
+  - destruct (IH Hin) as [H|H]; destruct (negb (is_locked a)); [destruct (kill_refused a)| | destruct (kill_refused a)|];
+      cbn [fst snd In]; auto.
 Qed.
 
 (* a status update from the master changes nothing: no lock, no owner, no listing entry *)
@@ -1075,7 +1117,7 @@ Proof. cbn [step]. rewrite recon_tasks_id. destruct s; reflexivity. Qed.
 (* ---------------- the witnesses of the former refutations, now regression examples *)
 Definition mw_spec : cspec :=
   mkSpec [0] 0 [mkRole RPlain true 0 false; mkRole (RHookTask false (-5)%Z) false 0 false;
-                mkRole (RHookTask false 5%Z) false 0 false].
+                mkRole (RHookTask false 5%Z) false 0 false] [].
 Definition mw_ops : list op := [OCreate 0 mw_spec].
 
 Lemma multiweight_released :
@@ -1088,7 +1130,7 @@ Lemma multiweight_released :
 Proof. vm_compute. repeat split; reflexivity. Qed.
 
 Definition stg_spec : cspec :=
-  mkSpec [2] 0 [mkRole RPlain true 0 false; mkRole RPlain true 1 false; mkRole RPlain false 2 false].
+  mkSpec [2] 0 [mkRole RPlain true 0 false; mkRole RPlain true 1 false; mkRole RPlain false 2 false] [].
 
 Lemma staging_killed :
   wf_op st0 (OCreate 0 stg_spec) = true /\
@@ -1100,7 +1142,7 @@ Proof. vm_compute. repeat split; reflexivity. Qed.
 (* an executor failure before a forced keep-tasks destroy: the failed task is not locked any more but
    still has its parent; the teardown clears it *)
 Definition xf_spec : cspec :=
-  mkSpec [0] 0 [mkRole RPlain true 0 false; mkRole RPlain false 0 false].
+  mkSpec [0] 0 [mkRole RPlain true 0 false; mkRole RPlain false 0 false] [].
 
 Lemma failed_executor_released :
   let ops := [OCreate 0 xf_spec; OFail [(0, 1)]] in
